@@ -134,6 +134,10 @@ type serverConn struct {
 	st      Settings
 	clientS Settings
 
+	// peerMaxFrame is the client's SETTINGS_MAX_FRAME_SIZE as the write loop
+	// needs it. clientS itself belongs to the stream loop.
+	peerMaxFrame uint32
+
 	// pingTimer
 	pingTimer       *time.Timer
 	maxRequestTimer *time.Timer
@@ -1918,7 +1922,16 @@ func (sc *serverConn) writeLoop() {
 	buffered := 0
 
 	send := func(fr *FrameHeader) error {
-		_, err := fr.WriteTo(sc.bw)
+		var err error
+
+		// A response's header list can be larger than the largest frame the
+		// client accepts, and then has to be continued.
+		if fr.Type() == FrameHeaders {
+			_, err = fr.writeHeaderBlockTo(sc.bw, int(atomic.LoadUint32(&sc.peerMaxFrame)))
+		} else {
+			_, err = fr.WriteTo(sc.bw)
+		}
+
 		if err == nil && (len(sc.writer) == 0 || buffered > 10) {
 			err = sc.bw.Flush()
 			buffered = 0
@@ -1965,6 +1978,7 @@ func (sc *serverConn) handleSettings(st *Settings) {
 	// HEADER_TABLE_SIZE out must not put the encoder back to 4096.
 	st.mergeTo(&sc.clientS)
 	sc.enc.SetMaxTableSize(sc.clientS.HeaderTableSize())
+	atomic.StoreUint32(&sc.peerMaxFrame, sc.clientS.MaxFrameSize())
 }
 
 // writeSettingsAck acknowledges a SETTINGS frame. handleStreams calls it once
